@@ -5,3 +5,6 @@
 
 #[path = "source_c13.rs"]
 mod c13;
+
+#[path = "source_c05.rs"]
+mod c05;
